@@ -46,7 +46,11 @@ def _placeholder_name(call):
     return None
 
 
+ORDER: dict = {}
+
+
 def trace_call_facts(m):
+    ORDER.clear()
     fd = m.func(FN + ".trace_call")
     varargs = fd.args.vararg.arg if fd.args.vararg else None
     kwargs = fd.args.kwarg.arg if fd.args.kwarg else None
@@ -74,10 +78,17 @@ def trace_call_facts(m):
         it = ast.unparse(g.iter)
         if it == f"enumerate({varargs})" and isinstance(g.target, ast.Tuple):
             env[g.target.elts[0].id] = "{#}"
+            order = "order-of:" + varargs
         elif it == f"{kwargs}.items()" and isinstance(g.target, ast.Tuple):
             env[g.target.elts[0].id] = "{KW}"
+            order = "order-of:" + kwargs
+        elif it in (f"sorted({kwargs}.items())", f"sorted({kwargs})") \
+                and isinstance(g.target, (ast.Tuple, ast.Name)):
+            env[(g.target.elts[0] if isinstance(g.target, ast.Tuple) else g.target).id] = "{KW}"
+            order = "sorted:" + kwargs
         else:
             raise AnalysisError(f"trace_call: unmodelled placeholder loop over {it}")
+        ORDER[st.targets[0].id] = order
         name_t = _template(_placeholder_name(elt), env)
         key_t = _template(comp.key, env) if isinstance(comp, ast.DictComp) else None
         coll[st.targets[0].id] = (name_t, key_t, st)
@@ -176,6 +187,33 @@ def r_names(c):
                 f"(placeholders {sorted(N)}, parameters {sorted(P)}, bindings "
                 f"{sorted(B)}): the call is rejected or binds the wrong placeholder",
                 facts={"N": sorted(N), "P": sorted(P), "B": sorted(B)})
+    # each placeholder is bound to the argument it was created from: a zip of a
+    # placeholder collection with the arguments must iterate both in one order
+    for k in calls[0].keywords:
+        if k.arg is not None or not isinstance(k.value, ast.DictComp):
+            continue
+        g = k.value.generators[0]
+        it = g.iter
+        if isinstance(it, ast.Call) and isinstance(it.func, ast.Name) and it.func.id == "zip":
+            srcs = []
+            for a in it.args:
+                t = ast.unparse(a)
+                base = t.split(".")[0]
+                if base in ORDER:
+                    srcs.append(ORDER[base])
+                elif base in (varargs, kwargs):
+                    srcs.append("order-of:" + base)
+                else:
+                    srcs.append("?" + t)
+            c.check(len(set(srcs)) == 1, "R12-NAMES", "trace_call",
+                    f"pairing:{m.frag(it, 50)}", m.loc(m.module_of(fd), it),
+                    f"placeholders and arguments are paired positionally by `{m.frag(it, 60)}` "
+                    f"although they are iterated in different orders {srcs}: an argument "
+                    "is bound to the placeholder of another argument")
+        else:
+            # paired through the key of one item: fine by construction
+            c.ok("R12-NAMES", "trace_call", f"pairing:{m.frag(it, 50)}",
+                 m.loc(m.module_of(fd), it), "paired through one item of the mapping")
     # positional and keyword names cannot coincide
     arr = m.module(FN)
     rx = arr.assigns.get("RE_ARGNAME")
